@@ -142,6 +142,8 @@ func (c *ChangesTable) Open() (sqlite.VirtualCursor, error) {
 		module:     c.module,
 		t:          c.table,
 		diffCursor: dc,
+		from:       from.Root,
+		to:         to.Root,
 	}, nil
 }
 
@@ -160,6 +162,8 @@ type ChangesCursor struct {
 	currentRow *v1proto.Row
 	diffCursor *kv.DiffCursor
 	eof        bool
+	from, to   *kv.DB
+	scanned    bool
 }
 
 func (c *ChangesCursor) Next() error {
@@ -199,6 +203,17 @@ func (c *ChangesCursor) Column(ctx *sqlite.VirtualTableContext, i int) error {
 }
 
 func (c *ChangesCursor) Filter(_ int, idxStr string, values ...sqlite.Value) error {
+	if c.scanned {
+		// every Filter starts a scan from the beginning: as the inner table
+		// of a join the cursor is filtered once per row of the outer table
+		dc, err := c.to.StartDiff(c.module.sc.ctx, c.from)
+		if err != nil {
+			return toSqlite(err)
+		}
+		c.diffCursor = dc
+		c.eof = false
+	}
+	c.scanned = true
 	return toSqlite(c.Next())
 }
 func (c *ChangesCursor) Rowid() (int64, error) {
